@@ -1,7 +1,7 @@
 (* C07/Properties.v — property theorems only.  Model: C07/Model.v (the code after fix commits
    e89b171, 07b228c; with the known finding F-C07a, whose fix 311264d was reverted by 0819a3f). *)
 From Coq Require Import String Lia.
-From RM Require Import C06.Model C06.Proofs C06.Proofs5 C06.Driver C07.Model C07.Proofs C07.Proofs2 C07.Proofs3 C07.Proofs4 C07.Text C07.Proofs5 C07.Walker C07.Proofs6 C07.Proofs7 C07.Proofs11 C07.Proofs13 C07.Proofs8 C07.Proofs9 C07.Proofs10 C07.Proofs12 Gen.C07WinEval C07.Source C07.Proofs14 C07.Proofs15 C07.Proofs16 Gen.C07WinLine C07.Proofs17 C07.Proofs18.
+From RM Require Import C06.Model C06.Proofs C06.Proofs5 C06.Driver C07.Model C07.Proofs C07.Proofs2 C07.Proofs3 C07.Proofs4 C07.Text C07.Proofs5 C07.Walker C07.Proofs6 C07.Proofs7 C07.Proofs11 C07.Proofs13 C07.Proofs8 C07.Proofs9 C07.Proofs10 C07.Proofs12 Gen.C07WinEval C07.Source C07.Proofs14 C07.Proofs15 C07.Proofs16 Gen.C07WinLine C07.Proofs17 C07.Proofs18 C07.WalkerFd C07.Proofs19.
 From RM Require C09.Grammar.
 From RM Require C08.Model C08.Proofs.
 Open Scope Z_scope.
@@ -677,3 +677,39 @@ Example c07_nonvacuous_standard_program :
   e_mem E (wrap32 16 + 12) = Some 1073745920 /\ win_frame_size i (e_gcps E) = Some 12 /\
   exists s', walk_win_framedata (mock_ops 4) Debug E i prog_ra_search m_init = Ret (s', true).
 Proof. split; [reflexivity|]. split; [reflexivity|]. eexists. vm_compute. reflexivity. Qed.
+
+(* Whole walks through frame-data programs (closes "run only" of round 4): walk_stack's loop on the abstract 32-bit
+   walker with BOTH kinds of record (win_walk: a frame-data record is evaluated by walk_win_framedata — the model
+   c07_source_is_model ties to walker.rs — an FPO record by walk_win_fpo).  EVERY well-formed x86 stack, of any depth,
+   whose functions carry an FPO record without base pointer or a frame-data record with the program
+   `$T0 .raSearch = $eip $T0 ^ = $esp $T0 4 + =`, in any mix, with or without FUNC records, with any recursion, is
+   walked to exactly its generated chain; a leftover return address can only matter for an FPO record on the context
+   frame (frame-data evaluation has no such rule, so the layout does not exclude it there). *)
+Theorem c07_win_recovers_chain :
+  forall mem in_stack lookup ebp (acts : list act) below eip esp,
+    win_layout mem in_stack lookup (is_nil below) (spec_gcps below) eip esp acts ->
+    0 <= esp -> 0 <= ebp < 2 ^ 32 ->
+    win_walk (length acts) mem in_stack lookup below (mkX eip esp ebp) = fpo_chain (spec_gcps below) esp ebp acts.
+Proof. exact win_recovers_chain. Qed.
+Print Assumptions c07_win_recovers_chain.
+
+Example c07_nonvacuous_win_layout :
+  (* the recursion stack of c07_nonvacuous_fpo_layout with the leaf described by a frame-data record (its return slot
+     may even hold a look-alike of its own eip) and the recursing function by alternating kinds of record *)
+  let mem := mem_read 4 2147483648
+     [1;1;1;1; 80;32;0;64;   17;17;17;17; 18;18;18;18; 80;32;0;64;   34;34;0;64; 35;35;35;35; 80;32;0;64;
+      51;51;51;51; 52;52;52;52; 0;48;0;64;   0;0;0;0; 0;0;0;0] in
+  let leaf := mkWin 4096 256 0 0 0 0 4 0 (ProgramString prog_ra_search_b) in
+  let recurse := mkWin 8192 256 0 0 0 0 8 0 (AllocatesBasePointer false) in
+  let lookup := fun ip => if (1073745920 <=? ip) && (ip <? 1073746176) then Some (leaf, None)
+                          else if (1073750016 <=? ip) && (ip <? 1073750272) then Some (recurse, Some 0) else None in
+  let acts := [(leaf, None, 1073750096); (recurse, Some 0, 1073750096); (recurse, Some 0, 1073750096); (recurse, Some 0, 1073754112)] in
+  win_layout mem (fun sp => (2147483648 <=? sp) && (sp <? 2147483700)) lookup true 0 1073745936 2147483648 acts /\
+  win_walk 4 mem (fun sp => (2147483648 <=? sp) && (sp <? 2147483700)) lookup [] (mkX 1073745936 2147483648 55) =
+  [mkX 1073750096 2147483656 55; mkX 1073750096 2147483668 55; mkX 1073750096 2147483680 55; mkX 1073754112 2147483692 55].
+Proof.
+  split.
+  - cbn [win_layout]. repeat split; try reflexivity; try (intro Hc; discriminate Hc); try (vm_compute; intro Hc; discriminate Hc);
+      try (vm_compute; reflexivity); try (intros _ Hc; discriminate Hc); try (left; reflexivity); try (right; reflexivity).
+  - vm_compute. reflexivity.
+Qed.
